@@ -1617,7 +1617,11 @@ wav_read_acid_chunk (SF_PRIVATE *psf, uint32_t chunklen)
 
 static int
 wav_set_chunk (SF_PRIVATE *psf, const SF_CHUNK_INFO * chunk_info)
-{	return psf_save_write_chunk (&psf->wchunks, chunk_info) ;
+{	/* The header parser gives up at a marker that is not four printable characters. */
+	if (! psf_chunk_id_is_printable (chunk_info))
+		return SFE_BAD_CHUNK_MARKER ;
+
+	return psf_save_write_chunk (&psf->wchunks, chunk_info) ;
 } /* wav_set_chunk */
 
 static SF_CHUNK_ITERATOR *
